@@ -655,6 +655,26 @@ def _eng_cases(rng, tier):
             qs.append((restr, agg))
         out.append({"kind": "engine", "line": "", "cfg": cfg, "script": [list(x) for x in script], "evs": evs, "qs": qs,
                     "show": f"engine {cfg}: {len(evs)} events, " + "; ".join(f"QUERY t{r} {a}" for r, a in qs)})
+    # scale: more rows in ONE flow than a source batch holds (32 768), so that per-batch partial states are combined
+    # inside a flow; a group that occurs in the first batch only, one that first appears late, null metric cells
+    for i in range(1 if tier == "quick" else 4):
+        nev = rng.range(33500, 36000) if i == 0 else rng.range(33000, 70000)
+        flushed = (i % 2 == 1)
+        cfg = dict(fill_factor=80, event_per_zone=1000, shards=1, segments_per_merge=2)
+        script = [("cmd", f"DEFINE t FIELDS {_E.FIELDS}")]
+        for j in range(nev):
+            g = "rare" if j in (3, 77, 4000) else ("late" if j > nev - 50 and j % 7 == 0 else f"g{j % 4}")
+            script.append(("raw", f'STORE t FOR c{j % 3} PAYLOAD {{"k": {j % 10}, "g": "{g}"}}'))
+        if flushed:
+            script.append(("cmd", "FLUSH"))
+        script.append(("quiesce",))
+        qs = []
+        for restr, agg in (("", "COUNT BY g"), ("", "COUNT, TOTAL k BY g"), ("", "COUNT"), ("", "TOTAL k"), (" WHERE k >= 5", "COUNT BY g")):
+            script.append(("cmd", f"QUERY t{restr}"))
+            script.append(("cmd", f"QUERY t{restr} {agg}"))
+            qs.append((restr, agg))
+        out.append({"kind": "engine", "line": "", "cfg": cfg, "script": [list(x) for x in script], "evs": [], "qs": qs,
+                    "show": f"engine large {cfg}: {nev} events in one {'segment' if flushed else 'memtable'}, " + "; ".join(f"QUERY t{r} {a}" for r, a in qs)})
     return out
 
 
